@@ -76,13 +76,15 @@ class Config:
         L.append('!gvar_names')
         if self.aliases:
             for r in allregs: L.append('%d %s' % (r, NAMES[r]))
-        names = ['%d nop' % NOP, '100 foo', '101 bar']
+        names = ['%d nop' % NOP, '100 foo', '101 bar', '110 pad_Sf', '111 pad_fS', '112 pad_bf', '113 pad_f__S']
         sigs = []
         intr = []
         jargs = 'to' if self.time_loc else 'ot'
         sigs.append('%d %s' % (JUMP, jargs)); intr.append('%d Jmp()' % JUMP)
         sigs.append('%d S%s' % (COUNT_JUMP, jargs)); intr.append('%d CountJmp(%s)' % (COUNT_JUMP, 'op=">"' if self.count_gt else ''))
         sigs += ['%d' % ANTI_SCRATCH, '%d' % NOP, '100', '101']
+        # plain instructions whose signatures have padding *between* parameters of different types (only used by the typing matrix)
+        sigs += ['110 S_f', '111 f_S', '112 b---f', '113 f__S']
         sigs.append('3 S'); intr.append('3 Interrupt()')
         # a plain (non-intrinsic) instruction that takes a label: keeps labels referenced from something that is not a jump
         sigs.append('4 ot'); names.append('4 labelref')
